@@ -1,0 +1,12 @@
+//go:build verif
+
+package pop3
+
+import "net"
+
+// VerifC02Session runs one POP3 session on conn and returns when the session has ended
+// (startSession expects its caller to have counted it in the WaitGroup).
+func (s *Server) VerifC02Session(id int, conn net.Conn) {
+	s.wg.Add(1)
+	s.startSession(id, conn)
+}
